@@ -598,8 +598,12 @@ class _Builder:
         return {k: tuple(v) for k, v in out.items()}
 
     # ------------------------------------------------------------------ blocks
-    def block(self, stmts: list[ast.stmt], paths: list[Path]) -> list[Path]:
-        for st in stmts:
+    def block(self, stmts: list[ast.stmt], paths: list[Path], loop_body: bool = False) -> list[Path]:
+        for i, st in enumerate(stmts):
+            if isinstance(st, ast.Assign) and isinstance(st.value, ast.Call) and any(p.out is None for p in paths):
+                fm = self._first_match_inline(st, stmts[i + 1 :], loop_body, next(p for p in paths if p.out is None))
+                if fm is not None:
+                    return self.block(fm, paths, loop_body)
             nxt: list[Path] = []
             for p in paths:
                 if p.out is not None:
@@ -611,6 +615,184 @@ class _Builder:
                 self.truncated = True
                 paths = paths[:MAX_PATHS]
         return paths
+
+    # ------------------------------------------------------------------ first-match helpers
+    def _first_match_inline(self, st: ast.Assign, rest: list[ast.stmt], loop_body: bool, p: Path):
+        """``x = helper(args); REST`` where the helper is a search loop -
+
+            def helper(..):            # same module, undecorated (or memoised), not an anchor of a rule
+                <prelude without return>
+                for ...:               # no else clause
+                    ... return V ...   # the returns sit directly in this loop
+                return D               # a constant (or nothing: None)
+
+        and REST does nothing when ``x`` is D - is the loop written out in place, REST moved to where the
+        helper returns:  ``for ...: ... x = V; REST; break``.  The helper's local names are renamed apart."""
+        import copy
+
+        if self.owner is None or self.inline_stack or len(st.targets) != 1 or not isinstance(st.targets[0], ast.Name):
+            return None
+        call = st.value
+        if any(isinstance(a, ast.Starred) for a in call.args) or any(k.arg is None for k in call.keywords):
+            return None
+        try:
+            ft = self.low.expr(call.func, p.env)
+        except Exception:  # noqa: BLE001
+            return None
+        if op(ft) != "func":
+            return None
+        callee = self.model.functions.get(ft[1])
+        if callee is None or callee.qualname in KNOWN_FUNCTIONS or callee.cls is not None or callee.parent is not None or callee.module is not self.low.mod or callee is self.fn:
+            return None
+        if any(not _is_cache_decorator(d) for d in callee.decorators):
+            return None
+        body = list(callee.node.body)
+        if body and isinstance(body[0], ast.Expr) and isinstance(body[0].value, ast.Constant) and isinstance(body[0].value.value, str):
+            body = body[1:]
+        loops = [k for k, b in enumerate(body) if isinstance(b, ast.For)]
+        if len(loops) != 1:
+            return None
+        k = loops[0]
+        prelude, loop, tail = body[:k], body[k], body[k + 1 :]
+        if loop.orelse or len(tail) > 1:
+            return None
+        default: ast.expr = ast.Constant(value=None)
+        if tail:
+            if not (isinstance(tail[0], ast.Return) and (tail[0].value is None or isinstance(tail[0].value, ast.Constant))):
+                return None
+            default = tail[0].value or default
+
+        def scan(nodes, in_loop):
+            """(number of returns directly in the loop, ok?)"""
+            n = 0
+            for node in nodes:
+                if isinstance(node, (ast.FunctionDef, ast.AsyncFunctionDef, ast.Lambda, ast.ClassDef)):
+                    continue
+                if isinstance(node, (ast.Yield, ast.YieldFrom, ast.Await, ast.Global, ast.Nonlocal)):
+                    return -1
+                if isinstance(node, ast.Return):
+                    if not in_loop:
+                        return -1
+                    n += 1
+                    continue
+                if isinstance(node, (ast.For, ast.While, ast.AsyncFor)) and in_loop:
+                    # a return in a nested loop would need a two-level break
+                    if any(isinstance(x, ast.Return) for x in ast.walk(node)):
+                        return -1
+                    continue
+                sub = scan(list(ast.iter_child_nodes(node)), in_loop)
+                if sub < 0:
+                    return -1
+                n += sub
+            return n
+
+        if scan(prelude, False) != 0 or scan([loop.iter], False) != 0:
+            return None
+        n_ret = scan(loop.body, True)
+        if n_ret < 1:
+            return None
+        x = st.targets[0].id
+        # REST owns every later use of x
+        inside = {id(n) for r in rest for n in ast.walk(r)}
+        for n in ast.walk(self.fn.node):
+            if isinstance(n, ast.Name) and n.id == x and id(n) not in inside and n is not st.targets[0]:
+                return None
+        # scoping of REST's own break / continue once it sits inside the helper's loop
+        def outer_jumps(nodes):
+            out = []
+            for node in nodes:
+                if isinstance(node, (ast.Break, ast.Continue)):
+                    out.append(node)
+                elif isinstance(node, (ast.For, ast.While, ast.AsyncFor)):
+                    out.extend(outer_jumps(node.orelse))
+                elif not isinstance(node, (ast.FunctionDef, ast.AsyncFunctionDef, ast.Lambda, ast.ClassDef)):
+                    out.extend(outer_jumps(list(ast.iter_child_nodes(node))))
+            return out
+
+        jumps = outer_jumps(rest)
+        if any(isinstance(j, ast.Break) for j in jumps) or (jumps and not loop_body):
+            return None
+        # REST must do nothing when the helper found nothing
+        probe = p.fork()
+        probe.env = dict(p.env)
+        probe.env[x] = self.low.expr(default, {})
+        n0 = len(probe.events)
+        saved_trunc = self.truncated
+        try:
+            outs = self.block(rest, [probe], loop_body)
+        except AnalysisError:
+            return None
+        finally:
+            self.truncated = saved_trunc
+        for q in outs:
+            if q.out is not None and not (q.out == ("continue",) and loop_body):
+                return None
+            if any(ev.kind not in ("guard", "bind") for ev in q.events[n0:]):
+                return None
+        # rename the helper's locals apart
+        tag = f"__{callee.name}{self.low.fresh()}"
+        a = callee.node.args
+        params = [q.arg for q in a.posonlyargs + a.args + a.kwonlyargs]
+        if a.vararg or a.kwarg:
+            return None
+        local = set(params)
+        for node in ast.walk(callee.node):
+            if isinstance(node, ast.Name) and isinstance(node.ctx, ast.Store):
+                local.add(node.id)
+
+        class Ren(ast.NodeTransformer):
+            def visit_Name(self, node):
+                return ast.copy_location(ast.Name(id=node.id + tag, ctx=node.ctx), node) if node.id in local else node
+
+        ren = Ren()
+        prelude2 = [ren.visit(copy.deepcopy(b)) for b in prelude]
+        loop2 = ren.visit(copy.deepcopy(loop))
+        # bind the parameters
+        binds = []
+        pos = [q.arg for q in a.posonlyargs + a.args]
+        if len(call.args) > len(pos):
+            return None
+        given = dict(zip(pos, call.args))
+        for kw in call.keywords:
+            if kw.arg not in params or kw.arg in given:
+                return None
+            given[kw.arg] = kw.value
+        defaults = dict(zip(reversed(pos), reversed(a.defaults)))
+        defaults.update({q.arg: d for q, d in zip(a.kwonlyargs, a.kw_defaults) if d is not None})
+        for name in params:
+            v = given.get(name, defaults.get(name))
+            if v is None:
+                return None
+            binds.append(ast.copy_location(ast.Assign(targets=[ast.Name(id=name + tag, ctx=ast.Store())], value=v), st))
+
+        # continue of the enclosing loop == leave the helper's loop (nothing follows it in this iteration)
+        class Jump(ast.NodeTransformer):
+            def visit_Continue(self, node):
+                return ast.copy_location(ast.Break(), node)
+
+            def visit_For(self, node):
+                return node
+
+            visit_While = visit_AsyncFor = visit_FunctionDef = visit_AsyncFunctionDef = visit_Lambda = visit_For
+
+        rest2 = [Jump().visit(copy.deepcopy(r)) for r in rest] if jumps else list(rest)
+
+        class Ret(ast.NodeTransformer):
+            def visit_Return(self, node):
+                val = node.value or ast.Constant(value=None)
+                first = ast.copy_location(ast.Assign(targets=[ast.Name(id=x, ctx=ast.Store())], value=val), node)
+                return [first, *rest2, ast.copy_location(ast.Break(), node)]
+
+            def visit_For(self, node):
+                return node
+
+            visit_While = visit_AsyncFor = visit_FunctionDef = visit_AsyncFunctionDef = visit_Lambda = visit_For
+
+        loop2.body = [y for b in loop2.body for y in (lambda r: r if isinstance(r, list) else [r])(Ret().visit(b))]
+        out = [*binds, *prelude2, loop2]
+        for node in out:
+            ast.fix_missing_locations(node)
+        return out
 
     def stmt(self, st: ast.stmt, p: Path) -> list[Path]:
         m = getattr(self, "s_" + type(st).__name__, None)
@@ -971,6 +1153,9 @@ class _Builder:
             same = (a_ is b_) if (test[1] == "is" and (a_ is None or b_ is None or isinstance(a_, bool) or isinstance(b_, bool))) else (type(a_) is type(b_) and a_ == b_) if test[1] == "==" else None
             if same is not None:
                 return then_fn([p]) if (same == pol) else else_fn([p])
+        if op(test) == "cmp" and test[1] in ("is", "==") and any(is_const(x, None) for x in (test[2], test[3])) and any(op(x) in ("tuple", "list", "dict", "set", "concat", "new", "comp") for x in (test[2], test[3])):
+            # a freshly built display / string / container is not None
+            return then_fn([p]) if not pol else else_fn([p])
         if _pure_test(test):
             # the same value-level test was already decided on this path: only the consistent arm is feasible
             for ev in p.events:
@@ -1105,7 +1290,7 @@ class _Builder:
                         nxt.append(q)
                         continue
                     self.low.bind_target(st.target, q.env, elt)
-                    for r in self.block(st.body, [q]):
+                    for r in self.block(st.body, [q], True):
                         if r.out == ("continue",):
                             r.out = None
                         nxt.append(r)
@@ -1120,7 +1305,7 @@ class _Builder:
 
         def run(env):
             box["tgt"] = self.low.bind_target(st.target, env, None)
-            return self.block(st.body, [Path([], env, None)])
+            return self.block(st.body, [Path([], env, None)], True)
 
         body_paths, inv = self._loop_body(p, assigned, loop_id, run)
         tgt = box["tgt"]
@@ -1143,7 +1328,7 @@ class _Builder:
             if n in env:
                 env[n] = ("phi", n, loop_id)
         test = self.low.expr(st.test, env)
-        body_paths = self.block(st.body, [Path([], env, None)])
+        body_paths = self.block(st.body, [Path([], env, None)], True)
         p.events.append(self.E("while", st.lineno, test, None, loop_id, body_paths))
         for n in assigned:
             p.env[n] = ("phi", n, loop_id)
